@@ -152,8 +152,9 @@ PROPS['C07']['units'].append('deps')
 PROPS['C09'] = {
     'units': ['recon'],
     'title': 'references use the name the type is defined under (IR kernel)',
-    'technique': 'Verus postcondition on reconcile.rs::check_type (extracted verbatim, real RustType): the type expression equals a recursive '
-                 'Seq-level rewrite in which every mentioned type name is replaced by the name its definition is emitted under',
+    'technique': 'Verus postconditions on reconcile.rs::check_type, check_variant and the per-crate block of reconcile_aliases (extracted verbatim, real IR '
+                 'types, loops over `&mut` vectors via vstd\'s prophetic IterMut model): every type expression of every struct field, variant payload, '
+                 'struct-variant field and alias target is related to its old value by a recursive rewrite relation',
     'level_text': 'For every type expression (any depth through Vec / array / slice / Option / HashMap / generic arguments): after check_type every '
                   'mentioned name for which the rename table has an entry - as a plain type and as a generic type - is the renamed name, and nothing '
                   'else in the expression changes (structure, other names, generic parameters).',
